@@ -216,11 +216,20 @@ func c17Decls(label string) (ast.Entities, ast.Enums, ast.Actions, ast.CommonTyp
 	}
 	acts := ast.Actions{"group": ast.Action{}}
 	view := ast.Action{}
-	switch c17Pick(8, label+".memberOf", 3) {
+	switch c17Pick(8, label+".memberOf", 4) {
 	case 1:
 		view.Parents = []ast.ParentRef{ast.ParentRefFromID("group")}
 	case 2:
-		view.Parents = []ast.ParentRef{ast.NewParentRef("Action", "group")}
+		view.Parents = []ast.ParentRef{ast.NewParentRef("Action", "root")} // unqualified type: the empty namespace's action
+	case 3:
+		if label == "ns" {
+			view.Parents = []ast.ParentRef{ast.NewParentRef("NS::Action", "group"), ast.NewParentRef("Action", "root")}
+		} else {
+			view.Parents = []ast.ParentRef{ast.NewParentRef("Action", "group"), ast.ParentRefFromID("root")}
+		}
+	}
+	if label != "ns" {
+		acts["root"] = ast.Action{}
 	}
 	switch c17Pick(9, label+".appliesTo", 4) {
 	case 1:
@@ -245,6 +254,9 @@ func c17Schema() *ast.Schema {
 	if c17Pick(11, "namespaced", 2) == 1 {
 		e, en, ac, ct := c17Decls("ns")
 		s.Namespaces = ast.Namespaces{"NS": ast.Namespace{Entities: e, Enums: en, Actions: ac, CommonTypes: ct, Annotations: ast.Annotations{"doc": "ns"}}}
+		// inside a named namespace an unqualified `Action::"group"` parent refers to the empty
+		// namespace, so that action exists there too
+		s.Actions = ast.Actions{"root": ast.Action{}}
 	} else {
 		s.Entities, s.Enums, s.Actions, s.CommonTypes = c17Decls("bare")
 	}
